@@ -18,6 +18,13 @@ a class attribute, a literal and `0.25 * 2` are all the same fact 1/2):
               of ATP_Store on an ASCII console, a closed console and a UTF-8 console with a lone surrogate in the
               operation label; true iff any call raised.
 
+  floatRangeFailuresEscape   EVALUATED on the real class: stores whose budget / reserve / debt limit lie beyond the range
+              of a C double (Python ints are unbounded) run every ledger operation, with quotients debt/capacity and
+              current/capacity beyond 2**1024 and debts no float can hold; true iff any call raised.
+A true division may be written `a / b` or as a call `f(a, b)` of a plain module-level function that is `a / b` on a probe
+grid and raises ZeroDivisionError for b = 0 (recognised by EVALUATION: a quotient helper that saturates beyond the float
+range is such a function).
+
 (floats are read through their shortest repr: 0.1 = 1/10.)  The module is the one the harness imported from the
 tree under test (`operon_ai.state.metabolism`, checked to live under the repository root).
 
@@ -88,6 +95,32 @@ def _fn(tree, name):
     raise Unrecognised(f"ATP_Store.{name} not found")
 
 
+_DIV_PROBES = [(0, 1), (1, 3), (7, 2), (10, 10), (3, 1000), (2 ** 60 + 1, 3), (10 ** 30, 7), (5, 10 ** 40)]
+
+
+def _is_division_call(n, module) -> bool:
+    """`f(a, b)` with f a plain function of the module under test that computes a / b: equal to true division on a probe
+    grid and ZeroDivisionError for a zero denominator (it may only differ where `a / b` itself leaves the float range)"""
+    if not (isinstance(n, ast.Call) and isinstance(n.func, ast.Name) and len(n.args) == 2 and not n.keywords):
+        return False
+    import types
+    f = getattr(module, n.func.id, None)
+    if not isinstance(f, types.FunctionType) or getattr(f, "__module__", None) != module.__name__:
+        return False
+    try:
+        if any(type(f(a, b)) is not float or f(a, b) != a / b for a, b in _DIV_PROBES):
+            return False
+    except Exception:  # noqa
+        return False
+    try:
+        f(1, 0)
+    except ZeroDivisionError:
+        return True
+    except Exception:  # noqa
+        return False
+    return False
+
+
 def _debt_weight(fn, module, cls) -> Fraction:
     found = []
     for n in ast.walk(fn):
@@ -103,12 +136,12 @@ def _debt_weight(fn, module, cls) -> Fraction:
             continue
         if isinstance(val, ast.BinOp) and isinstance(val.op, ast.Mult):
             for q, k in ((val.left, val.right), (val.right, val.left)):
-                if isinstance(q, ast.BinOp) and isinstance(q.op, ast.Div):
+                if (isinstance(q, ast.BinOp) and isinstance(q.op, ast.Div)) or _is_division_call(q, module):
                     found.append(evaluate(k, module, cls))
                     break
             else:
                 raise Unrecognised("debt term is not (a / b) * K")
-        elif isinstance(val, ast.BinOp) and isinstance(val.op, ast.Div):
+        elif (isinstance(val, ast.BinOp) and isinstance(val.op, ast.Div)) or _is_division_call(val, module):
             found.append(Fraction(1))
         else:
             raise Unrecognised("debt term is not (a / b) * K")
@@ -184,7 +217,7 @@ def _nonzero_test(test, den: str, positive: bool) -> bool:
     return False
 
 
-def _upd_guards(fn):
+def _upd_guards(fn, module=None):
     """(g1, g2) for the two true divisions of _update_state: the one inside the debt-term statement (g2) and the other (g1)"""
     found = []        # (division node, guarded, inside a `ratio -= …`/`ratio = ratio - …` statement)
 
@@ -210,12 +243,17 @@ def _upd_guards(fn):
         for n in ast.walk(node):
             if isinstance(n, ast.IfExp):
                 raise Unrecognised("conditional expression in _update_state")
+            right = None
             if isinstance(n, ast.BinOp) and isinstance(n.op, (ast.Div, ast.FloorDiv, ast.Mod)):
-                if isinstance(n.right, ast.Constant) and isinstance(n.right.value, (int, float)) and n.right.value != 0:
+                right = n.right
+            elif module is not None and _is_division_call(n, module):
+                right = n.args[1]
+            if right is not None:
+                if isinstance(right, ast.Constant) and isinstance(right.value, (int, float)) and right.value != 0:
                     continue
-                if not isinstance(n.right, ast.Name):
-                    raise Unrecognised(f"division by {ast.unparse(n.right)[:40]}")
-                den = n.right.id
+                if not isinstance(right, ast.Name):
+                    raise Unrecognised(f"division by {ast.unparse(right)[:40]}")
+                den = right.id
                 ok = any(_nonzero_test(t, den, pos) for (t, pos) in guards)
                 found.append((den, ok, debt_stmt))
     visit(fn.body, [])
@@ -274,8 +312,43 @@ def _console_failures_escape(module) -> bool:
     return False
 
 
+def _float_range_failures_escape(module) -> bool:
+    """run every ledger operation on stores whose quantities lie beyond the range of a C double"""
+    E = module.EnergyType
+    H = 10 ** 310
+    calls = []
+
+    def script():
+        a = module.ATP_Store(budget=1, gtp_budget=0, nadh_reserve=0, max_debt=H, debt_interest=0.5, silent=True)
+        yield lambda: a.consume(H // 10, "x", allow_debt=True, priority=10)     # debt / capacity beyond 2**1024
+        yield lambda: a.regenerate(5)
+        yield lambda: a.enter_dormancy()
+        yield lambda: a.exit_dormancy()
+        yield lambda: a.apply_debt_interest()                                    # a debt no float can hold
+        yield lambda: a.consume(1, "x", E.GTP, True, 10)
+        yield lambda: a.reset()
+        b = module.ATP_Store(budget=1, nadh_reserve=H, silent=True)
+        yield lambda: b.consume(10 * H, "x", priority=10)                        # refused; the top-up stays: atp >> max_atp
+        yield lambda: b.consume(1, "x", priority=10)                             # current / capacity beyond 2**1024
+        yield lambda: b.convert_nadh_to_atp(3)
+        c = module.ATP_Store(budget=H, gtp_budget=H, nadh_reserve=H, max_debt=H, debt_interest=0.1, silent=True)
+        yield lambda: c.consume(H + H // 2, "x", allow_debt=True, priority=10)
+        yield lambda: c.consume(H // 3, "x", E.NADH, True, 10)
+        yield lambda: c.apply_debt_interest()
+        yield lambda: c.transfer_to(a, 7)
+        yield lambda: c.transfer_to(b, H // 7, E.GTP)
+        yield lambda: c.regenerate(H)
+        yield lambda: c.reset()
+    for call in script():
+        try:
+            call()
+        except Exception:  # noqa
+            return True
+    return False
+
+
 def extract_facts(repo: Path) -> dict:
-    names = ["debtWeight", "chain", "updGuards", "consoleFailuresEscape"]
+    names = ["debtWeight", "chain", "updGuards", "consoleFailuresEscape", "floatRangeFailuresEscape"]
     try:
         module = load_module(repo)
         cls = module.ATP_Store
@@ -294,8 +367,9 @@ def extract_facts(repo: Path) -> dict:
             facts[name] = Unrecognised(repr(e))
     guard("debtWeight", lambda: _debt_weight(fn, module, cls))
     guard("chain", lambda: _chain(fn, module, cls))
-    guard("updGuards", lambda: _upd_guards(fn))
+    guard("updGuards", lambda: _upd_guards(fn, module))
     guard("consoleFailuresEscape", lambda: _console_failures_escape(module))
+    guard("floatRangeFailuresEscape", lambda: _float_range_failures_escape(module))
     return facts
 
 
@@ -326,6 +400,11 @@ def render(facts: dict) -> str:
     lines.append("/-- evaluated on the real class: does a console that cannot show a message (ASCII / closed stdout, lone surrogate in "
                  "the label) make any operation of a loud store raise? -/")
     lines.append("def consoleFailuresEscape : Bool := "
+                 + (f"true  -- UNRECOGNISED: {str(c)[:100]}" if isinstance(c, Unrecognised) else str(bool(c)).lower()))
+    c = facts.get("floatRangeFailuresEscape", Unrecognised("not evaluated"))
+    lines.append("/-- evaluated on the real class: does a quantity beyond the range of a C double (budget / reserve / debt limit of "
+                 "10^310: Python ints are unbounded) make any ledger operation raise? -/")
+    lines.append("def floatRangeFailuresEscape : Bool := "
                  + (f"true  -- UNRECOGNISED: {str(c)[:100]}" if isinstance(c, Unrecognised) else str(bool(c)).lower()))
     lines += ["", "end Operon.Gen.Metabolism", ""]
     return "\n".join(lines)
